@@ -7,5 +7,5 @@ echo "--- demo on clean tree:"; PYTHONPATH=/repo/src timeout 300 /venv/bin/pytho
 git -C /repo apply $M/patch.diff || { echo "patch does not apply"; exit 2; }
 echo "--- demo with the change:"; PYTHONPATH=/repo/src timeout 300 /venv/bin/python $M/demo.py > /tmp/demo_mut.out 2>&1; echo "rc=$? $(tail -1 /tmp/demo_mut.out)"
 echo "--- test suite with the change:"; (cd /repo && timeout 900 /venv/bin/python -m pytest -q -p no:cacheprovider --timeout=900 2>&1 | tail -3)
-echo "--- our check:"; (cd /verif && timeout 1800 ./check $P --tier quick 2>&1 | grep -E "VIOLATION|rc=" | cut -c1-220)
+echo "--- our check:"; (cd /verif && VERIF_EVIDENCE_DIR=/tmp/verif_mut_evidence timeout 1800 ./check $P --tier quick 2>&1 | grep -E "VIOLATION|rc=" | cut -c1-220)
 git -C /repo checkout -- . ; git -C /repo status --short
